@@ -1,7 +1,8 @@
 """
 Bounded stand-in (labelled bounded): the assembled matrices dae.fx, fy, gx, gy agree with central finite differences of the assembled
 residuals (f, g) at the operating point after TDS.init, for stock cases, before and after opening a line (without and with the
-connectivity check that patches islanded buses).  Entries whose finite difference straddles a limiter breakpoint are not compared.
+connectivity check that patches islanded buses) and after altering a machine damping and an exciter gain (parameters that enter only
+Jacobian blocks without variable arguments).  Entries whose finite difference straddles a limiter breakpoint are not compared.
 """
 CASES = ['kundur/kundur_full.xlsx', 'ieee14/ieee14_full.xlsx']
 
@@ -83,6 +84,14 @@ def run():
             if not unlisted(case, bad):
                 ss.Line.alter('u', ss.Line.idx.v[2], 0)
                 label = case + ' after opening ' + str(ss.Line.idx.v[2])
+                k, bad = fd_check(ss, label)
+                total += k
+            if not unlisted(case, bad):
+                # parameters that enter the Jacobian only through blocks without any variable argument (machine damping, exciter gain)
+                ss.GENROU.alter('D', ss.GENROU.idx.v[0], 3.0 + float(ss.GENROU.get('D', ss.GENROU.idx.v[0], 'vin')))
+                exc = [m for m in (ss.EXDC2, ss.EXST1, ss.ESST3A) if m.n > 0][0]
+                exc.alter('KA', exc.idx.v[0], 1.7 * float(exc.get('KA', exc.idx.v[0], 'vin')))
+                label = case + ' after opening a line and altering GENROU.D and %s.KA' % exc.class_name
                 k, bad = fd_check(ss, label)
                 total += k
         for row, col, ja, jf in bad:
